@@ -20,11 +20,31 @@ def exec_text(body, bi):
 
 
 def variant_guard(body, bi, adt):
+    """the variant(s) of `adt` whose match arm contains block bi: one name, or `A+B` for an or-pattern arm (`A(q, _) | B(q, _) => ..`)"""
     for s, vals, term in body.guards(bi):
         dv = mir.discr_variants(term, vals)
-        if dv and term[2] == adt and len(dv[1]) == 1:
-            return dv[1][0]
+        if dv and term[2] == adt and len(dv[1]) >= 1 and "otherwise" not in dv[1]:
+            return "+".join(dv[1])
+    # or-pattern arms bind their variables in one block per variant and join afterwards: no single edge guards the arm.
+    # The arm's variants are those whose own edge reaches bi without passing the match again (and not all of them do)
+    for sb in body.dom_chain(bi):
+        t = body.blocks[sb]["t"]
+        if t["k"] != "switch":
+            continue
+        term = body.switch_term(sb)
+        if term[0] != "discr" or term[2] != adt:
+            continue
+        table = dict(term[3])
+        edges = [(table.get(v), tg) for v, tg in t["targets"]]
+        hit = [name for name, tg in edges if name and (tg == bi or bi in body.reachable(tg, avoid_blocks={sb}))]
+        other_hits = t["otherwise"] is not None and t["otherwise"] not in [tg for _, tg in edges] and bi in body.reachable(t["otherwise"], avoid_blocks={sb})
+        if hit and len(hit) < len(edges) and not other_hits:
+            return "+".join(hit)
     return None
+
+
+def variants_of(var):
+    return var.split("+") if var else []
 
 
 def run(P, C, tier):
@@ -121,7 +141,8 @@ def run(P, C, tier):
             ok2 = not other_writes and not reaches_commit and rb and returns_err
             C.ob("R2", key, ok2, b.loc(bi),
                  "error edge: no further write=%s, no COMMIT=%s, ROLLBACK on every path=%s, returns Err=%s" % (not other_writes, not reaches_commit, rb, returns_err))
-    C.floor("R1", "connection-using calls inside the transaction", len(writes), 13)
+    # an or-pattern arm serves several variants with one call: each variant counts
+    C.floor("R1", "connection-using calls inside the transaction", sum(max(1, len(variants_of(k[0]))) * n_ for k, n_ in per_kind.items()), 13)
     C.floor("R2", "ROLLBACK sites", len(rollbacks), 12)
     # R10: no return leaves the writer's connection inside the transaction
     C.rule("R10", "the single read-write connection is never left inside an open transaction: after BEGIN succeeded every path to a return passes COMMIT or ROLLBACK "
@@ -185,7 +206,7 @@ def run(P, C, tier):
     variants = [v["name"] for v in wm["variants"]] if wm else []
     C.floor("R7", "WriteMessage variants", len(variants), 13)
     arms = arms_of(b, "database::sqlite_database::WriteMessage")
-    written = {k[0] for k in per_kind}
+    written = {v_ for k in per_kind for v_ in variants_of(k[0])}
     for v in variants:
         if v in NON_WRITING:
             C.ob("R7", "variant:" + v, v in arms, b.loc(), "non-writing variant (%s) has an arm" % NON_WRITING[v], nontrivial=False)
@@ -289,11 +310,11 @@ def run(P, C, tier):
                 continue
             if has_ok:
                 n_ok += 1
-                arms_ok.add(var)
+                arms_ok.update(variants_of(var))
                 C.ob("R4", "ack-ok:" + var, res == "Ok" and not has_err, w.loc(bi), "Ok acknowledgement only under process_batch_write == Ok (found under %s)" % res)
             elif has_err:
                 n_err += 1
-                arms_err.add(var)
+                arms_err.update(variants_of(var))
                 C.ob("R4", "ack-err:" + var, res == "Err", w.loc(bi), "Err acknowledgement under process_batch_write == Err (found under %s)" % res)
             else:
                 C.ob("R4", "ack-unclassified:" + var, False, w.loc(bi), "acknowledgement payload is neither Ok nor Err: %s" % term_str(payload)[:80])
